@@ -6,12 +6,12 @@ namespace Tbox.C04
 structure Core (s : State) : Prop where
   /-- loop l's write fd is registered for g  ⇔  loop l has a subscriber of g -/
   fdsIff  : ∀ g l, l ∈ fdsOf s g ↔ subsOf s l g ≠ []
-  /-- a ctx exists exactly while some loop is registered -/
-  ctxSome : ∀ g, (s.ctxs g).isSome = true ↔ fdsOf s g ≠ []
-  /-- tbox's handler is installed exactly while a ctx exists -/
-  osTbox  : ∀ g, (s.os g).kind = .tbox ↔ (s.ctxs g).isSome = true
+  /-- tbox's handler is installed exactly while some loop is registered -/
+  osTbox  : ∀ g, (s.os g).kind = .tbox ↔ fdsOf s g ≠ []
   /-- the saved disposition is never tbox's own handler -/
   oldOk   : ∀ g c, s.ctxs g = some c → c.old.kind ≠ .tbox
+  /-- nothing is ever registered for a signal on which `sigaction` fails -/
+  invalid : ∀ g, sigValid g = false → fdsOf s g = []
   /-- the per-loop map holds no empty entry -/
   entries : ∀ l g x, (s.subs l).find g = some x → x ≠ []
   /-- the loop has a pipe exactly while its map is non-empty -/
@@ -45,6 +45,17 @@ theorem fdsOf_eq {s : State} {g : Nat} {c : Ctx} (h : s.ctxs g = some c) : fdsOf
 theorem fdsOf_none {s : State} {g : Nat} (h : s.ctxs g = none) : fdsOf s g = [] := by
   simp [fdsOf, ctxOf, h]
 
+theorem ctx_some_of_fds {s : State} {g : Nat} (hf : fdsOf s g ≠ []) : ∃ c, s.ctxs g = some c ∧ ctxOf s g = c := by
+  cases hc : s.ctxs g with
+  | none => exact absurd (fdsOf_none hc) hf
+  | some c => exact ⟨c, rfl, by simp [ctxOf, hc]⟩
+
+theorem old_ok_ctxOf {s : State} (h : ∀ g c, s.ctxs g = some c → c.old.kind ≠ .tbox) (g : Nat) :
+    (ctxOf s g).old.kind ≠ .tbox := by
+  cases hc : s.ctxs g with
+  | none => simp [ctxOf, hc, zeroDisp]
+  | some c => simpa [ctxOf, hc] using h g c hc
+
 /-- value of `fdsOf` after an update of the ctx map -/
 theorem fdsOf_upd (s : State) (ctxs : Nat → Option Ctx) (g g' : Nat) (v : Option Ctx)
     (h : ctxs = upd s.ctxs g v) :
@@ -72,7 +83,8 @@ theorem ctxs_isSome_subscribe (s : State) (l g e g' : Nat) :
     · simp [h, hg]
   · simp [h]
 
-theorem subscribe_core (s : State) (l g e : Nat) (h : Core s) : Core (subscribe s l g e) := by
+theorem subscribe_core (s : State) (l g e : Nat) (h : Core s) (hok : subscribeFails s l g = false) :
+    Core (subscribe s l g e) := by
   have hfd := fdsOf_subscribe s l g e
   have hsb := subsOf_subscribe s l g e
   refine ⟨?_, ?_, ?_, ?_, ?_, ?_, ?_, ?_, ?_⟩
@@ -92,22 +104,16 @@ theorem subscribe_core (s : State) (l g e : Nat) (h : Core s) : Core (subscribe 
           exact (h.fdsIff g' l').2 hc
         · simp only [hl, ↓reduceIte]; exact h.fdsIff g' l'
     · simp only [hg, false_and, and_false, ↓reduceIte]; exact h.fdsIff g' l'
-  · -- ctxSome
-    intro g'
-    rw [ctxs_isSome_subscribe, hfd]
-    by_cases hc : g' = g ∧ subsOf s l g = []
-    · simp [hc, ins_ne_nil]
-    · simp only [hc, ↓reduceIte]; exact h.ctxSome g'
   · -- osTbox
     intro g'
-    rw [ctxs_isSome_subscribe, subscribe_os]
+    rw [subscribe_os, hfd]
     by_cases hg : g' = g
     · subst hg
       by_cases hc : subsOf s l g' = []
       · by_cases hf : fdsOf s g' = []
-        · simp [hc, hf, tboxDisp]
-        · simp only [hc, hf, and_false, ↓reduceIte, and_self, iff_true]
-          exact (h.osTbox g').2 ((h.ctxSome g').2 hf)
+        · simp [hc, hf, tboxDisp, ins_ne_nil]
+        · simp only [hc, hf, and_false, ↓reduceIte, and_self, ne_eq, ins_ne_nil, not_false_eq_true, iff_true]
+          exact (h.osTbox g').2 hf
       · simp only [hc, false_and, ↓reduceIte, and_false]; exact h.osTbox g'
     · by_cases hc : subsOf s l g = [] ∧ fdsOf s g = []
       · simp only [hc, and_self, ↓reduceIte, upd_apply, hg, false_and]; exact h.osTbox g'
@@ -124,17 +130,20 @@ theorem subscribe_core (s : State) (l g e : Nat) (h : Core s) : Core (subscribe 
         by_cases hf : fdsOf s g' = []
         · simp only [hf, ↓reduceIte]
           intro hk
-          have := (h.ctxSome g').1 ((h.osTbox g').1 hk)
-          exact this hf
+          exact (h.osTbox g').1 hk hf
         · simp only [hf, ↓reduceIte]
-          have hsome := (h.ctxSome g').2 hf
-          cases hcx : s.ctxs g' with
-          | none => simp [hcx] at hsome
-          | some c0 =>
-            have : ctxOf s g' = c0 := by simp [ctxOf, hcx]
-            rw [this]; exact h.oldOk g' c0 hcx
+          exact old_ok_ctxOf h.oldOk g'
       · simp only [hg, ↓reduceIte] at hc; exact h.oldOk g' c hc
     · simp only [hs, ↓reduceIte] at hc; exact h.oldOk g' c hc
+  · -- invalid
+    intro g' hv
+    rw [hfd]
+    by_cases hc : g' = g ∧ subsOf s l g = []
+    · exfalso
+      obtain ⟨rfl, hc2⟩ := hc
+      have := h.invalid g' hv
+      simp [subscribeFails, hc2, this, hv] at hok
+    · simp only [hc, ↓reduceIte]; exact h.invalid g' hv
   · -- entries
     intro l' g' x hx
     rw [subscribe_subs] at hx
@@ -244,31 +253,17 @@ theorem unsubscribe_core (s : State) (l g e : Nat) (h : Core s) : Core (unsubscr
           intro hnil; apply hc; simp [hnil, del]
         · simp only [hl, ↓reduceIte]; exact h.fdsIff g' l'
     · simp only [hg, false_and, and_false, ↓reduceIte]; exact h.fdsIff g' l'
-  · -- ctxSome
-    intro g'
-    rw [ctxs_isSome_unsubscribe, hfd]
-    by_cases hc : g' = g ∧ del e (subsOf s l g) = []
-    · simp [hc]
-    · simp only [hc, ↓reduceIte]; exact h.ctxSome g'
   · -- osTbox
     intro g'
-    rw [ctxs_isSome_unsubscribe, unsubscribe_os]
+    rw [unsubscribe_os, hfd]
     by_cases hg : g' = g
     · subst hg
       by_cases hc : del e (subsOf s l g') = []
       · by_cases hf : del l (fdsOf s g') = []
-        · simp only [hc, hf, and_self, ↓reduceIte, upd_apply, ne_eq, not_true_eq_false, decide_false,
-            Bool.false_eq_true, iff_false]
-          cases hcx : s.ctxs g' with
-          | none =>
-            have : ctxOf s g' = {} := by simp [ctxOf, hcx]
-            rw [this]; simp [zeroDisp]
-          | some c0 =>
-            have : ctxOf s g' = c0 := by simp [ctxOf, hcx]
-            rw [this]; exact h.oldOk g' c0 hcx
-        · simp only [hc, hf, and_false, ↓reduceIte, and_self, ne_eq, not_false_eq_true, decide_true, iff_true]
+        · simp only [hc, hf, and_self, ↓reduceIte, upd_apply, ne_eq, not_true_eq_false, iff_false]
+          exact old_ok_ctxOf h.oldOk g'
+        · simp only [hc, hf, and_false, ↓reduceIte, and_self, ne_eq, not_false_eq_true, iff_true]
           apply (h.osTbox g').2
-          apply (h.ctxSome g').2
           intro hnil; apply hf; simp [hnil, del]
       · simp only [hc, false_and, ↓reduceIte, and_false]; exact h.osTbox g'
     · by_cases hc : del e (subsOf s l g) = [] ∧ del l (fdsOf s g) = []
@@ -289,15 +284,16 @@ theorem unsubscribe_core (s : State) (l g e : Nat) (h : Core s) : Core (unsubscr
         · subst hg
           simp only [↓reduceIte, Option.some.injEq] at hc
           subst hc
-          have hne : fdsOf s g' ≠ [] := by intro hnil; apply hd; simp [hnil, del]
-          have hsome := (h.ctxSome g').2 hne
-          cases hcx : s.ctxs g' with
-          | none => simp [hcx] at hsome
-          | some c0 =>
-            have : ctxOf s g' = c0 := by simp [ctxOf, hcx]
-            rw [this]; exact h.oldOk g' c0 hcx
+          exact old_ok_ctxOf h.oldOk g'
         · simp only [hg, ↓reduceIte] at hc; exact h.oldOk g' c hc
     · simp only [hs, ↓reduceIte] at hc; exact h.oldOk g' c hc
+  · -- invalid
+    intro g' hv
+    rw [hfd]
+    by_cases hc : g' = g ∧ del e (subsOf s l g) = []
+    · obtain ⟨rfl, hc2⟩ := hc
+      simp [hc2, h.invalid g' hv, del]
+    · simp only [hc, ↓reduceIte]; exact h.invalid g' hv
   · -- pipeIff
     intro l'
     rw [unsubscribe_hasPipe, unsubscribe_subs]
@@ -340,50 +336,153 @@ theorem unsubscribe_core (s : State) (l g e : Nat) (h : Core s) : Core (unsubscr
 
 /-! ### the disposition "underneath" tbox's handler -/
 
-/-- the disposition the process would have without tbox: the saved one while a ctx exists -/
+/-- the disposition the process would have without tbox: the saved one while some loop is registered -/
 def baseDisp (s : State) (g : Nat) : Disp :=
-  match s.ctxs g with
-  | some c => c.old
-  | none => s.os g
+  if fdsOf s g = [] then s.os g else (ctxOf s g).old
 
-theorem baseDisp_subscribe (s : State) (l g e g' : Nat) (h : Core s) :
+theorem ctxOf_subscribe (s : State) (l g e g' : Nat) :
+    ctxOf (subscribe s l g e) g' =
+      if g' = g ∧ subsOf s l g = [] then
+        { fds := ins l (fdsOf s g), old := if fdsOf s g = [] then s.os g else (ctxOf s g).old }
+      else ctxOf s g' := by
+  unfold ctxOf
+  rw [subscribe_ctxs]
+  by_cases h : subsOf s l g = []
+  · by_cases hg : g' = g
+    · subst hg; simp [h, ctxOf]
+    · simp [h, hg]
+  · simp [h]
+
+theorem baseDisp_subscribe (s : State) (l g e g' : Nat) :
     baseDisp (subscribe s l g e) g' = baseDisp s g' := by
   unfold baseDisp
-  rw [subscribe_ctxs, subscribe_os]
+  rw [fdsOf_subscribe, ctxOf_subscribe, subscribe_os]
   by_cases hs : subsOf s l g = []
   · by_cases hg : g' = g
     · subst hg
       by_cases hf : fdsOf s g' = []
-      · have : s.ctxs g' = none := by
-          cases hc : s.ctxs g' with
-          | none => rfl
-          | some c => exact absurd hf ((h.ctxSome g').1 (by simp [hc]))
-        simp [hs, hf, this]
-      · have hsome := (h.ctxSome g').2 hf
-        cases hc : s.ctxs g' with
-        | none => simp [hc] at hsome
-        | some c => simp [hs, hf, ctxOf, hc]
+      · simp [hs, hf, ins_ne_nil]
+      · simp [hs, hf, ins_ne_nil]
     · by_cases hf : fdsOf s g = [] <;> simp [hs, hf, hg]
   · simp [hs]
+
+theorem ctxOf_unsubscribe_old (s : State) (l g e g' : Nat) :
+    (ctxOf (unsubscribe s l g e) g').old =
+      if g' = g ∧ del e (subsOf s l g) = [] ∧ del l (fdsOf s g) = [] then zeroDisp else (ctxOf s g').old := by
+  unfold ctxOf
+  rw [unsubscribe_ctxs]
+  by_cases h : del e (subsOf s l g) = []
+  · by_cases hg : g' = g
+    · subst hg
+      by_cases hd : del l (fdsOf s g') = []
+      · simp [h, hd]
+      · simp [h, hd, ctxOf]
+    · by_cases hd : del l (fdsOf s g) = [] <;> simp [h, hd, hg]
+  · simp [h]
 
 theorem baseDisp_unsubscribe (s : State) (l g e g' : Nat) (h : Core s) (hm : e ∈ subsOf s l g) :
     baseDisp (unsubscribe s l g e) g' = baseDisp s g' := by
   have hne : subsOf s l g ≠ [] := by intro hnil; rw [hnil] at hm; cases hm
   have hl : l ∈ fdsOf s g := (h.fdsIff g l).2 hne
   have hf : fdsOf s g ≠ [] := by intro hnil; rw [hnil] at hl; cases hl
-  have hsome := (h.ctxSome g).2 hf
   unfold baseDisp
-  rw [unsubscribe_ctxs, unsubscribe_os]
+  rw [fdsOf_unsubscribe, ctxOf_unsubscribe_old, unsubscribe_os]
   by_cases hs : del e (subsOf s l g) = []
   · by_cases hg : g' = g
     · subst hg
-      cases hc : s.ctxs g' with
-      | none => simp [hc] at hsome
-      | some c =>
-        by_cases hd : del l (fdsOf s g') = []
-        · simp [hs, hd, ctxOf, hc]
-        · simp [hs, hd, ctxOf, hc]
+      by_cases hd : del l (fdsOf s g') = []
+      · simp [hs, hd, hf]
+      · simp [hs, hd, hf]
     · by_cases hd : del l (fdsOf s g) = [] <;> simp [hs, hd, hg]
   · simp [hs]
+
+/-! ### the failure path of `subscribeSignal`, and the handler's `_signal_ctxs_[signo]` -/
+
+/-- `_signal_ctxs_[g]` evaluated for its side effect only: the entry now exists -/
+def touchCtx (s : State) (g : Nat) : State := { s with ctxs := upd s.ctxs g (some (ctxOf s g)) }
+
+theorem ctxOf_touchCtx (s : State) (g g' : Nat) : ctxOf (touchCtx s g) g' = ctxOf s g' := by
+  unfold touchCtx ctxOf
+  by_cases hg : g' = g
+  · subst hg; simp
+  · simp [hg]
+
+theorem fdsOf_touchCtx (s : State) (g g' : Nat) : fdsOf (touchCtx s g) g' = fdsOf s g' := by
+  unfold fdsOf; rw [ctxOf_touchCtx]
+
+theorem touchCtx_core (s : State) (g : Nat) (h : Core s) : Core (touchCtx s g) := by
+  refine ⟨?_, ?_, ?_, ?_, h.entries, h.pipeIff, h.pipeNil, h.ndSubs, ?_⟩
+  · intro g' l; rw [fdsOf_touchCtx]; exact h.fdsIff g' l
+  · intro g'; rw [fdsOf_touchCtx]; exact h.osTbox g'
+  · intro g' c hc
+    unfold touchCtx at hc
+    by_cases hg : g' = g
+    · subst hg
+      simp only [upd_apply, ↓reduceIte, Option.some.injEq] at hc
+      subst hc; exact old_ok_ctxOf h.oldOk g'
+    · simp only [upd_apply, hg, ↓reduceIte] at hc; exact h.oldOk g' c hc
+  · intro g' hv; rw [fdsOf_touchCtx]; exact h.invalid g' hv
+  · intro g'; rw [fdsOf_touchCtx]; exact h.ndFds g'
+
+theorem baseDisp_touchCtx (s : State) (g g' : Nat) : baseDisp (touchCtx s g) g' = baseDisp s g' := by
+  unfold baseDisp; rw [fdsOf_touchCtx, ctxOf_touchCtx]; rfl
+
+theorem Map.erase_of_find_none {α : Type} (m : Map α) (k : Nat) (h : m.find k = none) : m.erase k = m := by
+  induction m with
+  | nil => rfl
+  | cons p r ih =>
+    obtain ⟨a, v⟩ := p
+    unfold Map.find at h
+    by_cases hak : a = k
+    · simp [hak] at h
+    · simp only [hak, ↓reduceIte] at h
+      unfold Map.erase at ih ⊢
+      have : (a != k) = true := by simp [hak]
+      simp only [List.filter_cons, this, ↓reduceIte, ih h]
+
+/-- in a state whose bookkeeping is in order a failing `subscribeSignal` leaves nothing behind but the ctx entry -/
+theorem subscribeFail_eq (s : State) (l g : Nat) (h : Core s) (hf : subscribeFails s l g = true) :
+    subscribeFail s l g = touchCtx s g := by
+  simp only [subscribeFails, Bool.and_eq_true, List.isEmpty_iff, Bool.not_eq_eq_eq_not, Bool.not_true] at hf
+  have hfind : (s.subs l).find g = none := by
+    cases hx : (s.subs l).find g with
+    | none => rfl
+    | some x =>
+      have := h.entries l g x hx
+      have hs : subsOf s l g = x := by simp [subsOf, hx]
+      rw [hf.1.1] at hs; exact absurd hs.symm this
+  have herase := Map.erase_of_find_none _ _ hfind
+  unfold subscribeFail touchCtx
+  simp only [herase, List.isEmpty_iff]
+  by_cases hm : s.subs l = []
+  · have hp : s.hasPipe l = false := by
+      cases hh : s.hasPipe l with
+      | false => rfl
+      | true => exact absurd hm ((h.pipeIff l).1 hh)
+    have h1 : upd s.hasPipe l false = s.hasPipe := by
+      funext i; by_cases hi : i = l
+      · subst hi; simp [hp]
+      · simp [hi]
+    have h2 : upd s.pipe l [] = s.pipe := by
+      funext i; by_cases hi : i = l
+      · subst hi; simp [h.pipeNil i hp]
+      · simp [hi]
+    have h3 : upd s.subs l (s.subs l) = s.subs := by
+      funext i; by_cases hi : i = l
+      · subst hi; simp
+      · simp [hi]
+    simp only [hm, ↓reduceIte]
+    rw [hm] at h3
+    rw [h1, h2, h3]
+  · have hp : s.hasPipe l = true := (h.pipeIff l).2 hm
+    have h1 : upd s.hasPipe l true = s.hasPipe := by
+      funext i; by_cases hi : i = l
+      · subst hi; simp [hp]
+      · simp [hi]
+    have h3 : upd s.subs l (s.subs l) = s.subs := by
+      funext i; by_cases hi : i = l
+      · subst hi; simp
+      · simp [hi]
+    simp only [hm, ↓reduceIte, hp, h1, h3]
 
 end Tbox.C04
